@@ -4,6 +4,7 @@ package main
 
 import (
 	"crypto/sha1"
+	"regexp"
 	"fmt"
 	"go/types"
 	"math/big"
@@ -25,6 +26,8 @@ type Engine struct {
 	allNamed []*types.Named // named types of repository packages (for closed-world interface reasoning)
 	warnings map[string]bool
 	implCache map[string][]types.Type
+	workDir   string
+	feasN     int
 }
 
 func (e *Engine) fresh(prefix string) string {
@@ -57,8 +60,16 @@ func cleanName(s string) string {
 }
 
 // typeKey is a short, SMT-safe, stable name for a Go type.
+var reByte = regexp.MustCompile(`\bbyte\b`)
+var reRune = regexp.MustCompile(`\brune\b`)
+
+// canonType: byte/rune are aliases; heap components and interface tags must not depend on the spelling.
+func canonType(s string) string {
+	return reRune.ReplaceAllString(reByte.ReplaceAllString(s, "uint8"), "int32")
+}
+
 func (e *Engine) typeKey(t types.Type) string {
-	s := types.TypeString(t, func(p *types.Package) string { return p.Name() })
+	s := canonType(types.TypeString(t, func(p *types.Package) string { return p.Name() }))
 	k := cleanName(s)
 	if len(k) > 60 {
 		h := sha1.Sum([]byte(s))
@@ -297,7 +308,7 @@ func ifVal(i *Term) *Term {
 var nilIface = mkIface(IntLit(0), IntLit(0))
 
 func (e *Engine) tagOf(t types.Type) int {
-	k := types.TypeString(t, nil)
+	k := canonType(types.TypeString(t, nil))
 	if id, ok := e.tags[k]; ok {
 		return id
 	}
@@ -333,17 +344,18 @@ func (e *Engine) implementers(it types.Type) []types.Type {
 	return out
 }
 
-// closedIface: named interface declared in the repository with at least one method.
+// closedIface: named repository interface declared `closed` in a contract file: its dynamic
+// types are exactly the repository's implementers (assumption A-closed, listed in evidence).
 func (e *Engine) closedIface(t types.Type) bool {
 	n, ok := t.(*types.Named)
 	if !ok {
 		return false
 	}
 	it, ok := n.Underlying().(*types.Interface)
-	if !ok || it.NumMethods() == 0 {
+	if !ok || it.NumMethods() == 0 || n.Obj().Pkg() == nil {
 		return false
 	}
-	return e.inRepo(n.Obj().Pkg())
+	return e.cs.Closed[n.Obj().Pkg().Path()+"."+n.Obj().Name()]
 }
 
 func isPointerLike(t types.Type) bool {
